@@ -12,6 +12,8 @@ pub mod c16;
 pub mod e1;
 pub mod e2;
 pub mod e3;
+pub mod e5;
+pub mod irrd;
 pub mod e7;
 pub mod junos;
 pub mod ev;
@@ -56,6 +58,8 @@ pub fn dispatch(id: &str, tier: Tier, replay: Option<&str>, budget: Duration) ->
         "C13" => c13::run(&mut report),
         "C14" => c14::run(&mut report),
         "C19" => e7::run(&mut report),
+        "C11" => e5::run_c11(&mut report, budget),
+        "probe-e5" => { e5::probe(); return 0; }
         _ => {
             eprintln!("unknown property {id}");
             return 2;
